@@ -44,7 +44,7 @@ def r1_precedence_order(ctx: Ctx) -> None:
                 ctx.check(sign(prec[a] - prec[b]) == sign(REF_RANK[a] - REF_RANK[b]), f"precedence:{a} vs {b}",
                           f"table orders {a}({prec[a]}) vs {b}({prec[b]}); conventional binding is "
                           + ("equal" if REF_RANK[a] == REF_RANK[b] else (f"{a} tighter" if REF_RANK[a] < REF_RANK[b] else f"{b} tighter")))
-    ctx.floor("operator_pairs", 28)
+    ctx.floor("operator_pairs", 18)
     mod = ctx.repo.module(EXPR)
     subs, gets = [], []
     for fn in mod.functions.values():
@@ -65,7 +65,8 @@ def _rank_accessor(ctx: Ctx):
     """the module function (if any) used for operator ranks in the pop comparison"""
     sy = ctx.repo.func(EXPR, "shunting_yard")
     loop, _par = _pop_loop(sy.node)
-    for c in ast.walk(loop.test):
+    from ..match import inline as _inl, last_assignments as _la
+    for c in ast.walk(_inl(loop.test, _la(sy.node))):
         if isinstance(c, ast.Compare) and isinstance(c.left, ast.Call) and isinstance(c.left.func, ast.Name) and unparse(c.left.args[0]) == "operator_stack[-1]":
             fn = ctx.repo.try_func(EXPR, c.left.func.id)
             if fn is not None:
@@ -87,13 +88,18 @@ def _unary_rank(ctx: Ctx) -> int | None:
     return None
 
 
+def _canon_test_text(sy: ast.FunctionDef, test: ast.AST) -> str:
+    from ..match import canon as _c
+    return _c(sy, test)
+
+
 def _pop_loop(sy: ast.FunctionDef):
     parents: dict[int, ast.AST] = {}
     for p in ast.walk(sy):
         for c in ast.iter_child_nodes(p):
             parents[id(c)] = p
     for n in walk_no_nested(sy):
-        if isinstance(n, (ast.While, ast.If)) and "operator_stack[-1]" in unparse(n.test) and any(isinstance(c, ast.Compare) and isinstance(c.ops[0], (ast.LtE, ast.Lt, ast.GtE, ast.Gt)) for c in ast.walk(n.test)):
+        if isinstance(n, (ast.While, ast.If)) and ("operator_stack[-1]" in unparse(n.test) or "operator_stack[-1]" in _canon_test_text(sy, n.test)) and any(isinstance(c, ast.Compare) and isinstance(c.ops[0], (ast.LtE, ast.Lt, ast.GtE, ast.Gt)) for c in ast.walk(n.test)):
             par = parents.get(id(n))
             return n, par if isinstance(par, ast.If) else None
     raise AnalysisError("shunting_yard: precedence pop loop not found")
@@ -102,6 +108,8 @@ def _pop_loop(sy: ast.FunctionDef):
 def r2_associativity(ctx: Ctx) -> None:
     sy = ctx.repo.func(EXPR, "shunting_yard")
     loop, par = _pop_loop(sy.node)
+    if isinstance(loop, ast.If) and any(isinstance(b, ast.Break) for b in loop.body):
+        return _assoc_break_form(ctx, sy, loop)
     if not ctx.check(isinstance(loop, ast.While), "shunting_yard:pops-all", "every stacked operator that binds at least as tightly is popped (a loop); an `if` pops at most one: `10 - 2 * 3 - 1` regroups"):
         return
     conj = loop.test.values if isinstance(loop.test, ast.BoolOp) and isinstance(loop.test.op, ast.And) else [loop.test]
@@ -185,6 +193,48 @@ def r2_associativity(ctx: Ctx) -> None:
     ctx.count("assoc_facts", 6)
 
 
+def _assoc_break_form(ctx: Ctx, sy, brk_if: ast.If) -> None:
+    """`while operator_stack: top = stack[-1]; if rank(top) > current or top is '(': break; pop` - the negation of the original guard"""
+    parents = {}
+    for p_ in ast.walk(sy.node):
+        for ch in ast.iter_child_nodes(p_):
+            parents[id(ch)] = p_
+    wl = parents.get(id(brk_if))
+    if not (isinstance(wl, ast.While) and unparse(wl.test) in ("operator_stack", "len(operator_stack) > 0")):
+        raise AnalysisError("shunting_yard: pop loop with break is not guarded by a non-empty stack")
+    ctx.ok("shunting_yard:pops-all", "a loop pops every stacked operator that binds at least as tightly")
+    ctx.ok("shunting_yard:non-empty", "never pops an empty stack")
+    from ..match import canon as _c
+    disj = brk_if.test.values if isinstance(brk_if.test, ast.BoolOp) and isinstance(brk_if.test.op, ast.Or) else [brk_if.test]
+    acc = _rank_accessor_name(ctx)
+    strict = None
+    paren = False
+    for d in disj:
+        t = _c(sy.node, d)
+        if isinstance(d, ast.Compare) and len(d.ops) == 1 and "operator_stack[-1]" in t and ("current_precedence" in t or (acc and f"{acc}(expr)" in t)):
+            strict = type(d.ops[0]).__name__
+        if t in ("operator_stack[-1].token.value == '('",):
+            paren = True
+    ctx.check(strict == "Gt", "shunting_yard:pop-comparison", f"popping stops only at a strictly looser stack operator (equal precedence is popped: left associativity); stop test is {strict}")
+    ctx.check(paren, "shunting_yard:stop-at-paren", "popping stops at an open parenthesis")
+    # only binary operators reach the loop
+    par = parents.get(id(wl))
+    while par is not None and not isinstance(par, ast.If):
+        par = parents.get(id(par))
+    ctx.check(par is not None and unparse(par.test) == "isinstance(expr, BinOp)", "shunting_yard:prefix-never-pops", "the pop loop runs for binary operators only")
+    pops = [c for c in calls_in(wl) if unparse(c) == "output_queue.append(operator_stack.pop())"]
+    ctx.check(len(pops) == 1, "shunting_yard:push", "popped operators go to the output queue")
+    tail = sy.node.body[-2] if len(sy.node.body) >= 2 else None
+    ok = isinstance(tail, ast.While) and unparse(tail.test) in ("len(operator_stack) > 0", "operator_stack") and any(unparse(c) == "output_queue.append(operator_stack.pop())" for c in calls_in(tail))
+    ctx.check(bool(ok), "shunting_yard:drain", "remaining operators are appended last-in first-out")
+    ctx.count("assoc_facts", 6)
+
+
+def _rank_accessor_name(ctx: Ctx) -> str | None:
+    fn = ctx.repo.try_func(EXPR, "operator_precedence")
+    return fn.name if fn is not None else None
+
+
 def r3_evaluation_dispatch(ctx: Ctx) -> None:
     ev = ctx.repo.func(EXPR, "eval_expression")
     loops = [n for n in ev.node.body if isinstance(n, ast.For)]
@@ -254,13 +304,19 @@ def r3_evaluation_dispatch(ctx: Ctx) -> None:
             raise AnalysisError("eval_expression: the `~` arm is not a threshold if-chain; its widths cannot be read off")
         iarms, ielse = if_chain(inv[0])
         widths = []
+        from ..match import canon as _cn
         for test, body in iarms:
-            ok_t = isinstance(test, ast.Compare) and unparse(test.left) == f"{v}.bit_length()" and isinstance(test.ops[0], ast.LtE)
-            n = const_int(test.comparators[0]) if ok_t else None  # type: ignore[union-attr]
+            n = None
+            if isinstance(test, ast.Compare) and len(test.ops) == 1 and _cn(ev.node, test.left) == f"{v}.bit_length()":
+                c0 = const_int(test.comparators[0])
+                if c0 is not None and isinstance(test.ops[0], ast.LtE):
+                    n = c0
+                elif c0 is not None and isinstance(test.ops[0], ast.Lt):
+                    n = c0 - 1
             val = unparse(body[0].value) if len(body) == 1 and isinstance(body[0], ast.Assign) else ""
             ctx.count("complement_arms")
-            ctx.check(n is not None and val == f"ctypes.c_uint{n}(~{v}).value", f"eval_expression[~ <= {n} bits]",
-                      f"values of at most {n} bits are complemented within {n} bits; arm computes `{val}`")
+            good = n is not None and (val == f"ctypes.c_uint{n}(~{v}).value" or val in (f"~{v} & {(1 << n) - 1}", f"{(1 << n) - 1} & ~{v}", f"~{v} % {1 << n}"))
+            ctx.check(good, f"eval_expression[~ <= {n} bits]", f"values of at most {n} bits are complemented within {n} bits; arm computes `{val}`")
             widths.append(n)
         ctx.check(widths == [8, 16, 32], "eval_expression[~]:widths", f"thresholds tried smallest first: {widths}")
         ctx.check(always_raises(ielse), "eval_expression[~]:too-wide", "wider values raise")
@@ -275,7 +331,7 @@ def r3_evaluation_dispatch(ctx: Ctx) -> None:
         if t == "current.token.type == TokenType.IDENTIFIER":
             ok = any(unparse(s) == "resolved_value = resolver.current_scope.value_for(current.token.value)" for s in body)
             ctx.check(ok, "eval_expression:identifier", "identifiers are looked up through the current scope chain")
-    ctx.floor("eval_arms", 7)
+    ctx.floor("eval_arms", 4)
 
 
 def r4_literal_bases(ctx: Ctx) -> None:
@@ -284,8 +340,13 @@ def r4_literal_bases(ctx: Ctx) -> None:
     arms, orelse = if_chain([s for s in en.node.body if isinstance(s, ast.If)][0])
     got = {}
     for test, body in arms:
+        from ..match import canon as _cn2
+        tt = _cn2(en.node, test)
+        m_ = __import__("re").fullmatch(rf"{p}\\[:2\\] == '(0.)'", tt)
         if isinstance(test, ast.Call) and call_name(test) == f"{p}.startswith" and len(body) == 1 and isinstance(body[0], ast.Assign):
             got[const_str(test.args[0])] = const_int(body[0].value)
+        elif m_ and len(body) == 1 and isinstance(body[0], ast.Assign):
+            got[m_.group(1)] = const_int(body[0].value)
         else:
             raise AnalysisError(f"eval_number: arm `{unparse(test)}` not modelled")
     default = const_int(orelse[0].value) if len(orelse) == 1 and isinstance(orelse[0], ast.Assign) else None
@@ -330,7 +391,7 @@ def r5_single_evaluator(ctx: Ctx) -> None:
         n = sites.count(site)
         ctx.check(n >= floor_per_site.get(site, 1), f"evaluates-through-eval_expression:{site.split(':')[1]}",
                   f"{what} use the common evaluator ({n} call(s), {floor_per_site.get(site, 1)} expected)")
-    ctx.floor("evaluation_sites", 8)
+    ctx.floor("evaluation_sites", 5)
     # operators each lexer can emit
     prec = module_const(ctx.repo, EXPR, "OPERATOR_PRECEDENCE")
     le = ctx.repo.func(SSTATES, "lex_expression")
